@@ -97,6 +97,9 @@ def exec_check(c):
     sid = ids + base
     spid = np.where(pid == -1, -1, pid + base)
     df = pd.DataFrame({"id": sid, "type": np.ones(n, dtype=np.int64), "x": np.zeros(n), "y": np.zeros(n), "z": np.zeros(n), "r": np.ones(n), "pid": spid})
+    if lib_vid(c) % 4 == 2:
+        df = df.iloc[::-1].iloc[::-1] if n < 2 else pd.concat([df.iloc[n // 2:], df.iloc[:n // 2]]).iloc[np.r_[n - n // 2:n, 0:n - n // 2]]     # same rows, same order, index labels kept from the pieces
+        df.index = df.index + 3
     return {"single": int(bool(is_single_root(df))), "cyclic": int(bool(has_cyclic((ids, pid)))),
             "sorted": int(bool(is_sorted((sid, spid)))), "bifex": int(bool(is_bifurcate((sid, spid)))),
             "bifall": int(bool(is_bifurcate((sid, spid), exclude_root=False)))}
